@@ -1,6 +1,289 @@
 import SdnsVerif.Model.UMap
+import SdnsVerif.Lemmas.UMap
 import SdnsVerif.Gen.C16
-/-! stub while the proofs are being developed -/
+/-!
+# C16 — bounded concurrent tables behave as maps and stay within capacity
+
+Property theorems only; definitions (`Inv`, `abs`, `SegInv`, `sabs`, `Run`, …)
+and helper lemmas live in `Lemmas/UMap.lean`, the executable model in
+`Model/UMap.lean`.  Every hash (`idx`, `seg`, `off`) is an arbitrary function
+that stays in range (`IdxOk`, `HashOk`); the real mixers are one instance
+(`realHashes_ok`).
+
+* `Inv idx m`  — no duplicate key ∧ every stored key's probe path from its ideal
+  slot is occupied (cyclically) ∧ `size` = occupied slots + zero flag ∧ load ≤
+  growth threshold < table length (so a free slot always exists).
+* `abs m : Nat → Option V` — the map a table denotes: a naive scan of all slots
+  plus the out-of-band zero key.
+-/
 namespace SdnsVerif.Props.C16
-theorem stub : True := trivial
+open SdnsVerif.Model.UMap SdnsVerif.Lemmas.UMap
+
+variable {V : Type} [Inhabited V]
+
+/-! ## UInt64Map: invariant -/
+
+/-- A fresh table satisfies the invariant and is empty. -/
+theorem inv_new (idx : Nat → Nat → Nat) (capacity : Nat) :
+    Inv idx (UMap.new capacity : UMap V) ∧ ∀ k, abs (UMap.new capacity : UMap V) k = none :=
+  ⟨(new_spec idx capacity).1, (new_spec idx capacity).2.1⟩
+
+/-- `Put`, `PutIfNotExists`, `Del` (backward-shift deletion), `EvictKeysAt`,
+`grow` and `Clear` all preserve the invariant. -/
+theorem inv_preserved {idx : Nat → Nat → Nat} (hidx : IdxOk idx) {m : UMap V} (inv : Inv idx m) :
+    (∀ k v, Inv idx (m.put idx k v)) ∧ (∀ k v, Inv idx (m.putIfNotExists idx k v).1) ∧
+    (∀ k, Inv idx (m.del idx k).1) ∧ (∀ off n skip, Inv idx (m.evictKeysAt idx off n skip).1) ∧
+    Inv idx (m.grow idx) ∧ Inv idx m.clear :=
+  ⟨fun k v => (put_spec hidx inv k v).1, fun k v => (putIfNotExists_spec hidx inv k v).1,
+   fun k => (del_spec hidx inv k).1, fun o n s => (evict_spec hidx inv o n s).1,
+   (grow_spec hidx inv).1, (clear_spec inv).1⟩
+
+/-! ## UInt64Map: refinement to the abstract map -/
+
+/-- **Lookup.** `Get`/`Has` return exactly what the abstract map holds: no ghost
+entry (stored but unreachable), nothing found that is not stored; the zero key
+is an ordinary key. -/
+theorem get_refines {idx : Nat → Nat → Nat} (hidx : IdxOk idx) {m : UMap V} (inv : Inv idx m) (k : Nat) :
+    m.get idx k = abs m k ∧ m.has idx k = (abs m k).isSome :=
+  ⟨get_eq_abs hidx inv k, has_eq_abs hidx inv k⟩
+
+/-- **Store.** After `Put k v` the key yields `v` and every other key (zero
+included) is untouched; the length grows exactly when the key was new. -/
+theorem put_refines {idx : Nat → Nat → Nat} (hidx : IdxOk idx) {m : UMap V} (inv : Inv idx m) (k : Nat) (v : V) :
+    (∀ k', abs (m.put idx k v) k' = if k' = k then some v else abs m k') ∧
+    (m.put idx k v).len = m.len + (if (abs m k).isSome then 0 else 1) :=
+  ⟨(put_spec hidx inv k v).2.1, (put_spec hidx inv k v).2.2⟩
+
+/-- `PutIfNotExists` stores only into an absent key and reports the value now present. -/
+theorem putIfNotExists_refines {idx : Nat → Nat → Nat} (hidx : IdxOk idx) {m : UMap V} (inv : Inv idx m)
+    (k : Nat) (v : V) :
+    (∀ k', abs (m.putIfNotExists idx k v).1 k' = if k' = k then some ((abs m k).getD v) else abs m k') ∧
+    (m.putIfNotExists idx k v).2.1 = (abs m k).getD v ∧ (m.putIfNotExists idx k v).2.2 = (abs m k).isNone :=
+  ⟨(putIfNotExists_spec hidx inv k v).2.1, (putIfNotExists_spec hidx inv k v).2.2.1,
+   (putIfNotExists_spec hidx inv k v).2.2.2.1⟩
+
+/-- **Removal.** Backward-shift deletion removes exactly `k`: no other key
+becomes unreachable, is duplicated or changes value, and the length drops by
+one exactly when `k` was stored. -/
+theorem del_refines {idx : Nat → Nat → Nat} (hidx : IdxOk idx) {m : UMap V} (inv : Inv idx m) (k : Nat) :
+    (∀ k', abs (m.del idx k).1 k' = if k' = k then none else abs m k') ∧
+    (m.del idx k).2 = (abs m k).isSome ∧
+    (m.del idx k).1.len + (if (abs m k).isSome then 1 else 0) = m.len :=
+  ⟨(del_spec hidx inv k).2.1, (del_spec hidx inv k).2.2.1, (del_spec hidx inv k).2.2.2⟩
+
+/-- **Eviction.** `EvictKeysAt(offset, n, skip)` removes at most `n` keys, never
+`skip`; every key it leaves keeps its value; each removal is counted. -/
+theorem evict_spec {idx : Nat → Nat → Nat} (hidx : IdxOk idx) {m : UMap V} (inv : Inv idx m)
+    (offset n skip : Nat) :
+    (m.evictKeysAt idx offset n skip).2 ≤ n ∧
+    (m.evictKeysAt idx offset n skip).1.len + (m.evictKeysAt idx offset n skip).2 = m.len ∧
+    abs (m.evictKeysAt idx offset n skip).1 skip = abs m skip ∧
+    ∀ k, abs (m.evictKeysAt idx offset n skip).1 k = abs m k ∨ abs (m.evictKeysAt idx offset n skip).1 k = none := by
+  obtain ⟨_, h2, h3, _, h5⟩ := SdnsVerif.Lemmas.UMap.evict_spec hidx inv offset n skip
+  refine ⟨h2, h3, ?_, ?_⟩
+  · rcases h5 skip with h | h
+    · exact h
+    · exact absurd rfl h.2
+  · intro k
+    rcases h5 k with h | h
+    · exact Or.inl h
+    · exact Or.inr h.1
+
+/-- Eviction is complete: if it stops short of its quota, only `skip` is left;
+in particular with a positive quota and another key present it removes one. -/
+theorem evict_progress {idx : Nat → Nat → Nat} (hidx : IdxOk idx) {m : UMap V} (inv : Inv idx m)
+    (offset n skip : Nat) :
+    ((m.evictKeysAt idx offset n skip).2 < n → ∀ k, abs (m.evictKeysAt idx offset n skip).1 k ≠ none → k = skip) ∧
+    (0 < n → ∀ k, k ≠ skip → abs m k ≠ none → 1 ≤ (m.evictKeysAt idx offset n skip).2) :=
+  ⟨evict_complete hidx inv offset n skip,
+   fun hn k hk hp => SdnsVerif.Lemmas.UMap.evict_progress hidx inv offset n skip hn k hk hp⟩
+
+/-- Growth (rehash into a larger array) changes neither meaning nor length. -/
+theorem grow_preserves_abs {idx : Nat → Nat → Nat} (hidx : IdxOk idx) {m : UMap V} (inv : Inv idx m) :
+    (∀ k, abs (m.grow idx) k = abs m k) ∧ (m.grow idx).len = m.len :=
+  ⟨(grow_spec hidx inv).2.1, (grow_spec hidx inv).2.2.1⟩
+
+/-- `Clear` empties the table. -/
+theorem clear_refines {idx : Nat → Nat → Nat} {m : UMap V} (inv : Inv idx m) :
+    (∀ k, abs m.clear k = none) ∧ m.clear.len = 0 :=
+  ⟨(clear_spec inv).2.1, (clear_spec inv).2.2⟩
+
+/-- The reported length is the number of entries iteration (`ForEach`) yields. -/
+theorem len_eq_iterated {idx : Nat → Nat → Nat} {m : UMap V} (inv : Inv idx m) : m.toList.length = m.len :=
+  umap_toList_length inv
+
+/-- **Histories.** From any well-formed table, every sequence of
+put / put-if-absent / delete / evict / grow / clear operations keeps the
+invariant, and the table's meaning follows a run of the abstract map in which
+each operation does exactly what the property allows (`Allowed`). -/
+theorem history_refines {idx : Nat → Nat → Nat} (hidx : IdxOk idx) (ops : List (Op V)) (m : UMap V)
+    (inv : Inv idx m) :
+    Inv idx (ops.foldl (step idx) m) ∧ Run (abs m) ops (abs (ops.foldl (step idx) m)) ∧
+    ∀ k, (ops.foldl (step idx) m).get idx k = abs (ops.foldl (step idx) m) k := by
+  obtain ⟨h1, h2⟩ := history_spec hidx ops m inv
+  exact ⟨h1, h2, fun k => get_eq_abs hidx h1 k⟩
+
+/-! ## SegmentUInt64Map -/
+
+/-- `Get`/`Set`/`Del` on the segmented table refine the abstract map; the
+atomic counter moves exactly with the number of stored keys. -/
+theorem segmap_refines {H : Hashes} (hH : HashOk H) {m : SegMap V} (inv : SegInv H m) (k : Nat) (v : V) :
+    m.get H k = sabs H m k ∧
+    (SegInv H (m.set H k v) ∧ (∀ k', sabs H (m.set H k v) k' = if k' = k then some v else sabs H m k') ∧
+      (m.set H k v).len = m.len + (if (sabs H m k).isSome then 0 else 1)) ∧
+    (SegInv H (m.del H k).1 ∧ (∀ k', sabs H (m.del H k).1 k' = if k' = k then none else sabs H m k') ∧
+      (m.del H k).1.len = m.len - (if (sabs H m k).isSome then 1 else 0)) := by
+  obtain ⟨s1, s2, s3⟩ := seg_set_spec hH inv k v
+  obtain ⟨d1, d2, _, d4⟩ := seg_del_spec hH inv k
+  exact ⟨seg_get_eq hH inv k, ⟨s1, s2, s3⟩, ⟨d1, d2, d4⟩⟩
+
+/-- **An insert never evicts the key it is writing**, and leaves every other
+key with its value or evicted. -/
+theorem setWithCap_never_evicts_self {H : Hashes} (hH : HashOk H) {m : SegMap V} (inv : SegInv H m)
+    (k : Nat) (v : V) (cap : Int) :
+    SegInv H (m.setWithCap H k v cap) ∧ sabs H (m.setWithCap H k v cap) k = some v ∧
+    ∀ k', k' ≠ k → sabs H (m.setWithCap H k v cap) k' = sabs H m k' ∨ sabs H (m.setWithCap H k v cap) k' = none := by
+  obtain ⟨h1, h2, h3, _⟩ := setWithCap_spec hH inv k v cap
+  exact ⟨h1, h2, h3⟩
+
+/-- **Sequential capacity bound.** Executed without interleaving, `SetWithCap`
+leaves the counter at or below the capacity (or below where it started, if it
+started above). -/
+theorem capacity_sequential {H : Hashes} (hH : HashOk H) {m : SegMap V} (inv : SegInv H m)
+    (k : Nat) (v : V) (cap : Int) (hcap : 1 ≤ cap) :
+    (m.setWithCap H k v cap).len ≤ max cap m.len :=
+  (setWithCap_spec hH inv k v cap).2.2.2 hcap
+
+/-- **Quiescent length.** Whenever no writer is in flight the reported length
+equals the number of entries reachable by iteration. -/
+theorem len_eq_reachable_when_quiescent {H : Hashes} {m : SegMap V} (inv : SegInv H m) :
+    m.len = (m.reachable : Int) := len_eq_reachable inv
+
+/-! ## cache.Cache -/
+
+section cache
+variable [DecidableEq V]
+
+/-- **CAS acts only on the identical current value**: it succeeds exactly when
+the stored value is `old`; then only `k` changes (to `new`) and the length is
+unchanged; otherwise nothing changes. -/
+theorem cas_only_on_identical {H : Hashes} (hH : HashOk H) {c : Cache V} (inv : SegInv H c.data)
+    (k : Nat) (old new : V) :
+    ((c.compareAndSwap H k old new).2 = true ↔ sabs H c.data k = some old) ∧
+    ((c.compareAndSwap H k old new).2 = true →
+      (∀ k', sabs H (c.compareAndSwap H k old new).1.data k' = if k' = k then some new else sabs H c.data k') ∧
+      (c.compareAndSwap H k old new).1.len = c.len) ∧
+    ((c.compareAndSwap H k old new).2 = false → (c.compareAndSwap H k old new).1 = c) := by
+  obtain ⟨_, h2, h3, h4, _⟩ := cas_spec hH inv k old new
+  exact ⟨h2, h3, h4⟩
+
+/-- **Compare-and-delete acts only on the identical current value.** -/
+theorem cad_only_on_identical {H : Hashes} (hH : HashOk H) {c : Cache V} (inv : SegInv H c.data)
+    (k : Nat) (old : V) :
+    ((c.compareAndDelete H k old).2 = true ↔ sabs H c.data k = some old) ∧
+    ((c.compareAndDelete H k old).2 = true →
+      (∀ k', sabs H (c.compareAndDelete H k old).1.data k' = if k' = k then none else sabs H c.data k') ∧
+      (c.compareAndDelete H k old).1.len = c.len - 1) ∧
+    ((c.compareAndDelete H k old).2 = false → (c.compareAndDelete H k old).1 = c) := by
+  obtain ⟨_, h2, h3, h4, _⟩ := cad_spec hH inv k old
+  exact ⟨h2, h3, h4⟩
+
+/-- **Cache histories.** Starting from `cache.New(size)`, after any sequence
+of Add / Remove / CompareAndSwap / CompareAndDelete executed one at a time:
+the structure invariant holds, the length never exceeds the configured size,
+equals the number of reachable entries, and the contents follow a run of the
+abstract map where `Add` stores its key and may evict others (never itself),
+and CAS / compare-delete act only on the identical value. -/
+theorem cache_history {H : Hashes} (hH : HashOk H) (size : Nat) (ops : List (COp V)) :
+    SegInv H (ops.foldl (cstep H) (Cache.new size)).data ∧
+    (ops.foldl (cstep H) (Cache.new size : Cache V)).len ≤ (max size 1 : Nat) ∧
+    (ops.foldl (cstep H) (Cache.new size : Cache V)).len = ((ops.foldl (cstep H) (Cache.new size : Cache V)).data.reachable : Int) ∧
+    CRun (fun _ => none) ops (sabs H (ops.foldl (cstep H) (Cache.new size : Cache V)).data) := by
+  obtain ⟨n1, n2, n3⟩ := cache_new_inv (V := V) H size
+  obtain ⟨h1, h2, h3⟩ := cache_history_spec hH ops (Cache.new size) n1
+  have hfun : sabs H (Cache.new size : Cache V).data = fun _ => none := funext n3
+  rw [hfun] at h3
+  refine ⟨h1.seg, ?_, len_eq_reachable h1.seg, h3⟩
+  have := h1.bound
+  rw [h2, n2] at this
+  exact this
+
+end cache
+
+/-! ## concurrent writers, counter level -/
+
+/-- Full statement (not proved): for every interleaving of the lock-atomic
+sections of the real `SetWithCap` / `Del` / `CompareAndDelete`, occupancy ≤
+capacity + number of writers between their insert and the end of their toll.
+
+Proved part: the statement for the counter-level transition system `CStep`, in
+which a writer leaves the in-flight set only after reading `count ≤ capacity`
+or after its toll removed at least one entry.  Missing: that every real writer
+does one of the two — shown for a writer running alone (`capacity_sequential`,
+through `spill_progress`), not for a writer whose whole spill pass finds no
+victim because other writers emptied the segments under it. -/
+theorem occupancy_le_cap_plus_writers_partial (cap : Int) (s t : CState) (h : CReach cap s t)
+    (h0 : s.count ≤ cap + s.owing) : t.count ≤ cap + t.owing :=
+  creach_bound cap s t h h0
+
+/-! ## LimiterStore -/
+
+/-- `LimiterStore.Get` keeps the store within `maxSize` (at least one entry),
+stores the requested key, and the entry it evicts (chosen before the insert)
+is never that key. -/
+theorem limiter_store_bounded (s : Lim) (k : Nat) (victim : Option Nat)
+    (hb : s.keys.length ≤ max s.maxSize 1)
+    (hv : s.maxSize ≤ s.keys.length → s.keys ≠ [] → ∃ w, victim = some w ∧ w ∈ s.keys) :
+    (s.get k victim).keys.length ≤ max s.maxSize 1 ∧ k ∈ (s.get k victim).keys ∧
+    ∀ k', k' ∈ s.keys → k' ∈ (s.get k victim).keys ∨ (some k' = victim ∧ k' ≠ k) := by
+  obtain ⟨h1, h2, _, h4⟩ := lim_get_spec s k victim hb hv
+  exact ⟨h1, h2, h4⟩
+
+/-! ## facts regenerated from the tree -/
+
+/-- Every table size the code produces keeps its growth threshold strictly
+below the array length (load factor < 1: a free slot always exists, which is
+what `Inv.room` needs) and equal to the model's `growAtOf`. -/
+theorem load_factor_below_one :
+    ∀ p ∈ SdnsVerif.Gen.C16.grow_pairs, p.getD 1 0 < p.getD 0 0 ∧ p.getD 1 0 = growAtOf (p.getD 0 0) := by
+  decide
+
+/-- There is always at least one segment (and `cache.New` uses 256). -/
+theorem segment_counts_positive :
+    (∀ n ∈ SdnsVerif.Gen.C16.seg_counts, 0 < n) ∧ (∀ n ∈ SdnsVerif.Gen.C16.cache_segments, 0 < n) := by
+  decide
+
+/-- **Writers never wait on a global lock**: neither the segmented table nor
+`Cache`/`SyncUInt64Map` has a table-wide mutex field (locks exist per segment
+only), and `SetWithCap` never holds two segment locks nor defers an unlock. -/
+theorem no_global_lock :
+    SdnsVerif.Gen.C16.segmap_global_locks = 0 ∧ SdnsVerif.Gen.C16.cache_global_locks = 0 ∧
+    1 ≤ SdnsVerif.Gen.C16.segment_locks ∧ SdnsVerif.Gen.C16.setwithcap_max_lock_depth ≤ 1 ∧
+    SdnsVerif.Gen.C16.setwithcap_defers = 0 := by
+  decide
+
+/-! ## non-vacuity -/
+
+-- the hypotheses of the UInt64Map theorems hold for a table with a wrapped probe chain
+example : Inv lastSlot (((UMap.new 0 : UMap Nat).put lastSlot 5 50).put lastSlot 9 90) :=
+  (inv_preserved lastSlot_ok ((inv_preserved lastSlot_ok (inv_new lastSlot 0).1).1 5 50)).1 9 90
+
+-- deleting the head of a wrapped cluster keeps the tail reachable (model run)
+example : ((((UMap.new 0 : UMap Nat).put lastSlot 5 50).put lastSlot 9 90).put lastSlot 13 130
+    |>.del lastSlot 5).1.get lastSlot 13 = some 130 := by decide
+
+example : ((((UMap.new 0 : UMap Nat).put lastSlot 5 50).put lastSlot 9 90).put lastSlot 0 7
+    |>.evictKeysAt lastSlot 3 5 9).2 = 2 := by decide
+
+-- the real mixers are admissible
+example : HashOk realHashes := realHashes_ok
+
+example : SegInv realHashes ((SegMap.new 4 0 : SegMap Nat).setWithCap realHashes 1 10 1) :=
+  (setWithCap_never_evicts_self realHashes_ok (segmap_new_spec realHashes 4 0).1 1 10 1).1
+
+example : CReach 2 ⟨2, 0⟩ ⟨2, 0⟩ ∧ CReach 2 ⟨2, 0⟩ ⟨3, 1⟩ :=
+  ⟨CReach.refl _, CReach.step (CReach.refl _) (CStep.insert ⟨2, 0⟩ true)⟩
+
+example : (Lim.get ⟨[1, 2], 2⟩ 3 (some 1)).keys = [3, 2] := by decide
+
 end SdnsVerif.Props.C16
